@@ -231,6 +231,14 @@ def _effect(name, i):
     return eff
 
 
+def _effect_step_impl(name):
+    def impl(x, **kw):
+        rt.call("effect", name, v=x, **kw)
+        return None
+
+    return impl
+
+
 def _plain_fn(name):
     def fn(x):
         rt.call("step", name, x=x)
@@ -466,8 +474,12 @@ class Program:
             kw["default_options"] = self._preset(n["id"], "default_options", n["default_options"])
         if n.get("callback"):
             kw["callback"] = _callback(name)
-        if n.get("effects"):
-            kw["effects"] = [_effect(name, i) for i in range(n["effects"])]
+        if n.get("effects") or n.get("effects_opt"):
+            kw["effects"] = [_effect(name, i) for i in range(n.get("effects", 0))]
+            for j, pn in enumerate(n.get("effects_opt", [])):
+                # an effect that is an Evaluatable with an option-valued parameter (e.g. an audit step reading a tag)
+                efn = make_step_fn(f"eff_{name}_o{j}", ["p"], [self.ref(pn)], _effect_step_impl(f"{name}#o{j}"))
+                kw["effects"].append(pipeline_step(efn))
         ck = n.get("cache", "default")
         factory = abstractdataset if n.get("abstract") else dataset
         if ck == "nocache":
